@@ -338,7 +338,8 @@ def _yaml_recipe(name, r, model):
         # emulated host id from a file outside the project
         hf = model.get("hostfile", "/nonexistent-hostfile")
         d["fingerprintIf"] = True
-        d["fingerprintScript"] = 'IFS= read -r h < "%s"\necho "host=$h"\n' % hf
+        # (the recipe's label makes the scripts of different recipes distinct: each one is a job of its own)
+        d["fingerprintScript"] = '# fingerprint of %s\nIFS= read -r h < "%s"\necho "host=$h"\n' % (name, hf)
     if r.get("relocatable") is False:
         d["relocatable"] = False
     if r["build"]:
